@@ -107,9 +107,8 @@ def apply_actions(root, actions, drv):
 
 
 def cacheless_config(drv, root, overrides):
-    """Same configuration, but the cache file lives in a directory that does not
-    exist: stat fails (miss) and the write fails with an IOError savecache ignores.
-    Nothing is patched: this is the code's own behaviour for an unwritable cache."""
+    """Same configuration with a cache file name that is never used elsewhere.  Reference requests are additionally
+    run under `nocache()` (the VFS reports the cache as not writable), so no cache file is read or written at all."""
     ov = {k: dict(v) for k, v in (overrides or {}).items()}
     ov.setdefault("handlers.dir.DirHandler", {})
     ov["handlers.dir.DirHandler"]["cachefile"] = "no-such-dir-pgverif/.cache"
@@ -117,11 +116,103 @@ def cacheless_config(drv, root, overrides):
     return drv.make_config(root, ov)
 
 
+class nocache:
+    """with nocache(): requests are served without any directory cache -- the VFS reports the cache file as not
+    writable (what VFSZip does for real), so loadcache() and savecache() return before touching the file system.
+    Installed from outside; used only for REFERENCE listings."""
+
+    def __enter__(self):
+        import pygopherd.handlers.base as hbase
+        self.hbase = hbase
+        self.orig = hbase.VFS_Real.iswritable
+        hbase.VFS_Real.iswritable = lambda vfs, selector: False
+        return self
+
+    def __exit__(self, *a):
+        self.hbase.VFS_Real.iswritable = self.orig
+        return False
+
+
+class FaultyFile:
+    """What open(cachefile, 'wb') returns on a file system with room for `room` more bytes: the bytes that fit are
+    written, then write() fails with the given errno -- and keeps failing."""
+
+    def __init__(self, real, room, err):
+        self.real, self.room, self.err = real, room, err
+
+    def write(self, data):
+        if len(data) <= self.room:
+            self.room -= len(data)
+            return self.real.write(data)
+        self.real.write(data[:self.room])
+        self.real.flush()
+        self.room = 0
+        raise OSError(self.err, os.strerror(self.err))
+
+    def __enter__(self):
+        return self
+
+    def __exit__(self, *a):
+        self.real.close()
+        return False
+
+    def close(self):
+        self.real.close()
+
+    def __getattr__(self, name):
+        return getattr(self.real, name)
+
+
+class write_fault:
+    """with write_fault(suffix, k, errno): every open(<...suffix>, 'w..') inside the block gets a file with room
+    for k bytes (persistent fault: every request inside the block meets it).  errno EFBIG is produced by the
+    kernel itself (RLIMIT_FSIZE = k, SIGXFSZ ignored); the others by wrapping VFS_Real.open from outside."""
+
+    def __init__(self, suffix, k, err):
+        self.suffix, self.k, self.err = suffix, k, err
+
+    def __enter__(self):
+        import errno
+        import pygopherd.handlers.base as hbase
+        self.hbase = hbase
+        if self.err == errno.EFBIG:
+            import resource
+            import signal
+            self.resource = resource
+            self.oldsig = signal.signal(signal.SIGXFSZ, signal.SIG_IGN)
+            self.signal = signal
+            self.oldlim = resource.getrlimit(resource.RLIMIT_FSIZE)
+            resource.setrlimit(resource.RLIMIT_FSIZE, (self.k, self.oldlim[1]))
+            self.orig = None
+            return self
+        self.orig = hbase.VFS_Real.open
+        orig, suffix, k, err = self.orig, self.suffix, self.k, self.err
+
+        def open_(vfs, selector, mode, errors=None):
+            f = orig(vfs, selector, mode, errors=errors)
+            if selector.endswith(suffix) and "w" in mode:
+                return FaultyFile(f, k, err)
+            return f
+
+        hbase.VFS_Real.open = open_
+        return self
+
+    def __exit__(self, *a):
+        if self.orig is None:
+            self.resource.setrlimit(self.resource.RLIMIT_FSIZE, self.oldlim)
+            self.signal.signal(self.signal.SIGXFSZ, self.oldsig)
+        else:
+            self.hbase.VFS_Real.open = self.orig
+        return False
+
+
 def references(drv, cfg_ref, protokeys):
     refs = {}
-    for key, rq in protokeys.items():
-        r = drv.serve_once(cfg_ref, drv.s2b(rq["data"]), tls=rq["tls"])
-        refs[key] = {"hash": digest(mask(drv.s2b(r["out"]))), "len": len(r["out"]), "exc": r["exc"]}
+    with nocache():
+        for key, rq in protokeys.items():
+            r = drv.serve_once(cfg_ref, drv.s2b(rq["data"]), tls=rq["tls"])
+            crashed = bool(r["exc"]) or (not r["out"] and any("EXCEPTION" in x for x in r["log"]))
+            refs[key] = {"hash": digest(mask(drv.s2b(r["out"]))), "len": len(r["out"]), "exc": r["exc"], "crashed": crashed}
     return refs
 
 
@@ -215,7 +306,13 @@ def c10_history(job, drv):
                             "size": len(b) if cut is not None else None})
             elif k in ("list", "probe"):
                 rq = (protokeys if k == "list" else job["probekeys"])[o["key"]]
-                r = observed_request(drv, w.config, cachepath, drv.s2b(rq["data"]), rq["tls"])
+                if o.get("fault"):
+                    # the cache write of this request fails after `room` bytes (disk full, quota, EFBIG, EIO)
+                    with write_fault("/.cache.pygopherd.dir", int(o["fault"]["room"]), int(o["fault"]["errno"])):
+                        r = observed_request(drv, w.config, cachepath, drv.s2b(rq["data"]), rq["tls"])
+                    r["fault"] = o["fault"]
+                else:
+                    r = observed_request(drv, w.config, cachepath, drv.s2b(rq["data"]), rq["tls"])
                 r["op"] = k
                 r["key"] = o["key"]
                 r["shift_s"] = shift
